@@ -67,7 +67,17 @@ func VerifHarness_C17_setdesired() {
 	desired := verifInt("desired", 0, 12)
 	d := verifInt("d", -3, 12)
 	verifAssume(verifAnd(min <= desired, desired <= max))
-	w := newAWSWorld(min, max, desired, 0, cloudprovider.AWSNodeGroupConfig{})
+	cfgSD := cloudprovider.AWSNodeGroupConfig{}
+	if verifChoice("resourceTagging", 2) == 1 {
+		cfgSD.ResourceTagging = true // (the registration-time tagging of the group is start-up, before the mark)
+	}
+	w := newAWSWorld(min, max, desired, 0, cfgSD)
+	if cfgSD.ResourceTagging && verifChoice("tagLost", 2) == 1 {
+		w.asg.Tagged = false // the tag was removed from the cloud group afterwards
+		_ = w.cp.Refresh()
+		ng, _ := w.cp.GetNodeGroup("asg0")
+		w.ng = ng.(*NodeGroup)
+	}
 	mark := len(w.J.Calls)
 	err := w.ng.IncreaseSize(d)
 	legal := verifAnd(d > 0, desired+d <= max)
